@@ -211,3 +211,12 @@ package edf
 //@   props C16 C11
 //@   requires state != nil
 //@   at make assert [allocation_bounded_by_the_input] n <= len(packet) && c <= len(packet)
+
+// errors: a regular (unregistered) error travels as its text; what is decoded must carry exactly the
+// text that was sent (errText is the result of Error(); fmt.Errorf/errors.New specs in stdlib.spec).
+// no_safety: the registered-error cache is assumed to hold errors (A-CACHE).
+//@ func decodeError
+//@   props C11 C16
+//@   no_safety
+//@   requires state != nil
+//@   ensures [regular_error_text_is_the_bytes_sent] value == nil && !state.decodeType && len(packet) >= 2 && be16(packet[0], packet[1]) <= 32767 && len(packet) >= 2 + int(be16(packet[0], packet[1])) ==> result.2 == nil && result.0 != nil && bytes_eq(errText(rvAny(*result.0)), packet[2:2 + int(be16(packet[0], packet[1]))]) && result.1 == packet[2 + int(be16(packet[0], packet[1])):]
